@@ -246,6 +246,8 @@ func (t *tfunc) expr(e ast.Expr, want types.Type) string {
 				return "none"
 			case strings.HasPrefix(lt, "List "):
 				return "[]"
+			case lt == "GoInt.Atom":
+				return "0" // the nil pointer / interface of an opaque type is atom 0
 			}
 			t.bad(e, "nil of an opaque type")
 		case *types.Var:
@@ -515,6 +517,9 @@ func (t *tfunc) call(v *ast.CallExpr, want types.Type) string {
 					if tv := info.Types[v.Args[1]]; tv.Value != nil && tv.Value.ExactString() == "0" {
 						return "[]"
 					}
+					if b := basicOf(typeOf(t.pi, v.Args[1])); b != nil && b.Info()&types.IsUnsigned != 0 {
+						return "List.replicate " + paren(t.expr(v.Args[1], nil)) + " default"
+					}
 					return "List.replicate (Int.toNat " + paren(t.intIndex(v.Args[1])) + ") default"
 				}
 			}
@@ -563,6 +568,24 @@ func (t *tfunc) call(v *ast.CallExpr, want types.Type) string {
 			args = append(args, paren(t.expr(a, pt)))
 		}
 		t.use(op.name)
+		for i, a := range v.Args {
+			if t.refArg(a) {
+				hk := fmt.Sprintf("%s ⇒ contents of argument %d afterwards", key, i+1)
+				hop := t.okey[hk]
+				if hop == nil {
+					continue // inside a return statement
+				}
+				t.havoc = append(t.havoc, havoc{a, t.use(hop.name) + " " + strings.Join(args, " ")})
+			} else if ty := typeOf(t.pi, a); ty != nil {
+				switch ty.Underlying().(type) {
+				case *types.Slice, *types.Map:
+					switch ast.Unparen(a).(type) {
+					case *ast.SelectorExpr, *ast.IndexExpr, *ast.SliceExpr:
+						t.bad(v, "a slice that is part of a variable is handed to an untranslated callee (it may write it)")
+					}
+				}
+			}
+		}
 		if len(args) == 0 {
 			return op.name
 		}
